@@ -108,6 +108,9 @@ pub struct Case {
     pub note: String,
     pub unit: u64,
     pub idx: u64,
+    /// C19: an input decoded (and dropped) on the same thread just before this one; what the
+    /// decoder still holds afterwards must not depend on it
+    pub prior: Option<Vec<u8>>,
 }
 
 impl Case {
@@ -147,6 +150,7 @@ impl Case {
             "note": self.note,
             "unit": self.unit,
             "idx": self.idx,
+            "prior_hex": self.prior.as_ref().map(|p| hex(p)),
         })
     }
 
@@ -168,6 +172,7 @@ impl Case {
             note: v.get("note").and_then(|x| x.as_str()).unwrap_or("").to_string(),
             unit: v.get("unit").and_then(|x| x.as_u64()).unwrap_or(0),
             idx: v.get("idx").and_then(|x| x.as_u64()).unwrap_or(0),
+            prior: v.get("prior_hex").and_then(|x| x.as_str()).and_then(unhex),
         })
     }
 }
